@@ -22,12 +22,14 @@ type c11Sink struct {
 	Shared bool     `json:"shared,omitempty"` // calls a shared global function
 	Interp bool     `json:"interp,omitempty"` // error detail built by string interpolation (parses at run time)
 	Sleep  int      `json:"sleep,omitempty"`  // sleep(micros) inside the sink (stalled party)
+	Spawn  int      `json:"spawn,omitempty"`  // child events added by the sink (handled by sink sc on other workers)
 }
 
 type c11Event struct {
 	ID      int             `json:"id"`
 	Kind    string          `json:"kind"`
 	Fail    map[string]bool `json:"fail"`
+	FailC   bool            `json:"failc,omitempty"` // the child-event sink fails for this event's children
 	Wait    bool            `json:"wait"`
 	ViaECAL bool            `json:"via_ecal,omitempty"`
 	PauseNs int             `json:"pause,omitempty"`
@@ -67,6 +69,9 @@ func c11Gen(r *simrt.RNG, tier string) interface{} {
 		if r.Bool(0.15) {
 			s.Sleep = 1 + r.Intn(20)
 		}
+		if r.Bool(0.3) {
+			s.Spawn = 1 + r.Intn(3)
+		}
 		p.Sinks = append(p.Sinks, s)
 	}
 	p.Globals = r.Bool(0.3)
@@ -84,6 +89,7 @@ func c11Gen(r *simrt.RNG, tier string) interface{} {
 			for _, s := range p.Sinks {
 				e.Fail[s.Name] = r.Bool(0.4)
 			}
+			e.FailC = r.Bool(0.4)
 			evs = append(evs, e)
 		}
 		p.Clients = append(p.Clients, evs)
@@ -134,6 +140,11 @@ func c11Shrink(pi interface{}) []interface{} {
 			q.Sinks[i].Loops, q.Sinks[i].Shared, q.Sinks[i].Interp, q.Sinks[i].Sleep = 0, false, false, 0
 			out = append(out, q)
 		}
+		if s.Spawn > 0 {
+			q := clone()
+			q.Sinks[i].Spawn--
+			out = append(out, q)
+		}
 	}
 	if p.Workers > 2 {
 		q := clone()
@@ -173,6 +184,9 @@ func c11Program(p *c11Plan) string {
 		} else if s.Shared {
 			b.WriteString("    acc := shared(acc)\n")
 		}
+		for k := 0; k < s.Spawn; k++ {
+			fmt.Fprintf(&b, "    addEvent(\"c{{id}}x%sx%d\", \"c11x.c\", {\"id\": id, \"failc\": event.state.failc})\n", s.Name, k)
+		}
 		if s.Sleep > 0 {
 			fmt.Fprintf(&b, "    sleep(%d)\n", s.Sleep)
 		}
@@ -185,6 +199,7 @@ func c11Program(p *c11Plan) string {
 		}
 		b.WriteString("    }\n}\n")
 	}
+	b.WriteString("sink sc\n    kindmatch [\"c11x.c\"],\n    priority 0\n{\n    let id := event.state.id\n    let acc := shared(id)\n    probe(\"sc\", id, acc, event.state.id, event.name)\n    if event.state.failc {\n        raise(\"T-sc\", id, [id, acc])\n    }\n}\n")
 	return b.String()
 }
 
@@ -220,7 +235,10 @@ func c11Run(p *c11Plan) {
 	}
 	reports := map[int]map[string]rep{}
 	reported := map[int]bool{}
-	record := func(evID int, forID int, sink string, r rep, how string) {
+	record := func(evID int, forID int, evName string, sink string, r rep, how string) {
+		if evName != fmt.Sprintf("ev%d", evID) {
+			sink = evName + "/" + sink // an entry of a child event of the cascade
+		}
 		if forID != evID {
 			simrt.Fail("oracle:error-attribution", "error-foreign-event", "%s: error report of event %d contains an entry for event %d (sink %s)", how, evID, forID, sink)
 		}
@@ -237,6 +255,7 @@ func c11Run(p *c11Plan) {
 		for _, s := range p.Sinks {
 			st["fail"+s.Name] = e.Fail[s.Name]
 		}
+		st["failc"] = e.FailC
 		return st
 	}
 	var wg simsync.WaitGroup
@@ -257,6 +276,7 @@ func c11Run(p *c11Plan) {
 					for _, s := range p.Sinks {
 						fl = append(fl, fmt.Sprintf("\"fail%s\": %v", s.Name, e.Fail[s.Name]))
 					}
+					fl = append(fl, fmt.Sprintf("\"failc\": %v", e.FailC))
 					code := fmt.Sprintf("addEventAndWait(%q, %q, {\"id\": %d, %s})", name, e.Kind, e.ID, strings.Join(fl, ", "))
 					res, err := loadProgram(erp, "client", code, vs.NewChild(fmt.Sprintf("client%d-%d", ci, i)))
 					if err != nil {
@@ -270,7 +290,7 @@ func c11Run(p *c11Plan) {
 							forID, _ := num(ev["state"].(map[interface{}]interface{})["id"])
 							for sk, ei := range item["errors"].(map[interface{}]interface{}) {
 								em := ei.(map[interface{}]interface{})
-								record(e.ID, int(forID), fmt.Sprint(sk), rep{fmt.Sprint(em["type"]), fmt.Sprint(em["detail"]), fmt.Sprint(em["data"])}, "ECAL addEventAndWait")
+								record(e.ID, int(forID), fmt.Sprint(ev["name"]), fmt.Sprint(sk), rep{fmt.Sprint(em["type"]), fmt.Sprint(em["detail"]), fmt.Sprint(em["data"])}, "ECAL addEventAndWait")
 							}
 						}
 					}
@@ -289,7 +309,7 @@ func c11Run(p *c11Plan) {
 								if d, ok := er.(*util.RuntimeErrorWithDetail); ok {
 									r = rep{d.Type.Error(), d.Detail, fmt.Sprint(d.Data)}
 								}
-								record(e.ID, int(forID), sk, r, "AddEventAndWait")
+								record(e.ID, int(forID), te.Event.Name(), sk, r, "AddEventAndWait")
 							}
 						}
 					}
@@ -305,7 +325,7 @@ func c11Run(p *c11Plan) {
 								if d, ok := er.(*util.RuntimeErrorWithDetail); ok {
 									r = rep{d.Type.Error(), d.Detail, fmt.Sprint(d.Data)}
 								}
-								record(ev.ID, int(forID), sk, r, "finish handler")
+								record(ev.ID, int(forID), te.Event.Name(), sk, r, "finish handler")
 							}
 						}
 					})
@@ -342,7 +362,33 @@ func c11Run(p *c11Plan) {
 					break
 				}
 			}
-			got := probes[e.ID]
+			var got, gotChildren []c11Probe
+			for _, pr := range probes[e.ID] {
+				if pr.sink == "sc" {
+					gotChildren = append(gotChildren, pr)
+				} else {
+					got = append(got, pr)
+				}
+			}
+			wantChildren := map[string]bool{}
+			for _, s := range run {
+				for k := 0; k < s.Spawn; k++ {
+					wantChildren[fmt.Sprintf("c%vx%sx%d", float64(e.ID), s.Name, k)] = true
+				}
+			}
+			seenChild := map[string]bool{}
+			for _, pr := range gotChildren {
+				if !wantChildren[pr.name] || seenChild[pr.name] {
+					simrt.Fail("oracle:invocations", "child-invocation", "event %d: unexpected or repeated invocation of the child sink for child event %q", e.ID, pr.name)
+				}
+				seenChild[pr.name] = true
+				if pr.id != float64(e.ID) || pr.acc != float64(e.ID) || pr.idAgain != float64(e.ID) {
+					simrt.Fail("oracle:isolation", "isolation", "child sink invoked for %q (event %d) saw event id %v, local %v, event id (again) %v", pr.name, e.ID, pr.id, pr.acc, pr.idAgain)
+				}
+			}
+			if len(seenChild) != len(wantChildren) {
+				simrt.Fail("oracle:invocations", "child-invocation-count", "event %d: %d child sink invocation(s) observed, want %d", e.ID, len(seenChild), len(wantChildren))
+			}
 			if len(got) != len(run) {
 				simrt.Fail("oracle:invocations", "invocation-count", "event %d (kind %s): %d sink invocation(s) observed, want %d (%v)", e.ID, e.Kind, len(got), len(run), got)
 			}
@@ -367,6 +413,11 @@ func c11Run(p *c11Plan) {
 					}
 				}
 				want[failing] = rep{"T-" + failing, detail, fmt.Sprint([]interface{}{float64(e.ID), float64(e.ID)})}
+			}
+			if e.FailC {
+				for name := range wantChildren {
+					want[name+"/sc"] = rep{"T-sc", fmt.Sprint(float64(e.ID)), fmt.Sprint([]interface{}{float64(e.ID), float64(e.ID)})}
+				}
 			}
 			gotR := reports[e.ID]
 			var diff []string
